@@ -76,6 +76,21 @@ def spansGap (es : List Eff) (a b : Nat) : Bool :=
   a < b && inc < b - a
 
 mutual
+  /-- Is the leftmost leaf of the tree zero-width (e.g. an external scanner's INDENT/NEWLINE, a MISSING token)? -/
+  def firstLeafEmpty : Tree → Bool
+    | .mk d [] => d.size.bytes == 0
+    | .mk _ (k :: _) => firstLeafEmpty k
+end
+
+/-- Is the rightmost leaf of the tree zero-width? -/
+def lastLeafEmpty : Tree → Bool
+  | .mk d [] => d.size.bytes == 0
+  | .mk d (k :: ks) =>
+    have : sizeOf ((k :: ks).getLast (by simp)) < 1 + sizeOf d + sizeOf (k :: ks) := by
+      have := List.sizeOf_lt_of_mem (List.getLast_mem (l := k :: ks) (by simp)); omega
+    lastLeafEmpty ((k :: ks).getLast (by simp))
+
+mutual
   /-- Lock-step walk of the ranged tree `t` (document coordinates) and the tree `c` of the
   concatenation.  `off`/`offC` are the absolute positions where each node's padding starts. -/
   def cmpTree (es : List Eff) (empties : List Nat) (doc : Array Nat) (positions : Bool) (t c : Tree) (off offC : Length) (st : Stats) : Stats :=
@@ -107,11 +122,18 @@ mutual
             let startQuirk := s.bytes != ss && empties.contains s.bytes && psiLeft es sC ≤ s.bytes && s.bytes ≤ ss
             let endHi := (psiRight es eC).getD (e.bytes + 1)
             let endQuirk := e.bytes != es' && empties.contains e.bytes && es' ≤ e.bytes && e.bytes ≤ endHi
-            if s.bytes != ss && !startQuirk then st.bad s!"position: node starts at {s.bytes}, ψ(concat start {sC}) = {ss}"
-            else if e.bytes != es' && !endQuirk then st.bad s!"position: node [{s.bytes},{e.bytes}) ends at {e.bytes}, ψ(concat end {eC}) = {es'}"
+            -- a node that BEGINS with a zero-width token at a seam starts where that token sits: at the left image
+            -- (`mark_end` at a range start reports the previous range's end and `finish` pulls the start back);
+            -- one that ENDS with a zero-width token may end at the right image
+            let zwStart := firstLeafEmpty (.mk d kids) && s.bytes == psiLeft es sC
+            let zwEnd := lastLeafEmpty (.mk d kids) && psiRight es eC == some e.bytes
+            let okS := s.bytes == ss || zwStart
+            let okE := e.bytes == es' || zwEnd
+            if !okS && !startQuirk then st.bad s!"position: node starts at {s.bytes}, ψ(concat start {sC}) = {ss}"
+            else if !okE && !endQuirk then st.bad s!"position: node [{s.bytes},{e.bytes}) ends at {e.bytes}, ψ(concat end {eC}) = {es'}"
             else if decide (s.extent ≠ pointAt doc s.bytes) || decide (e.extent ≠ pointAt doc e.bytes) then
               st.bad s!"position: node [{s.bytes},{e.bytes}) has points {s.extent.row}:{s.extent.column}-{e.extent.row}:{e.extent.column}, the document says {(pointAt doc s.bytes).row}:{(pointAt doc s.bytes).column}-{(pointAt doc e.bytes).row}:{(pointAt doc e.bytes).column}"
-            else if startQuirk || endQuirk then
+            else if (!okS && startQuirk) || (!okE && endQuirk) then
               { st with quirks := st.quirks + 1,
                         quirkMsg := if st.quirks == 0 then s!"node [{s.bytes},{e.bytes}) has a boundary on an empty included range; ψ gives [{ss},{es'})" else st.quirkMsg }
             else st
